@@ -41,13 +41,16 @@ RULE_C08 = ("activation variants (ATS: every subset of TA/TB/TC x 0..15 historic
             "accessor was evaluated")
 RULE_C16 = ("operation (ndef read, has_changed, one-command and chunked write, is_present, format(wipe), dump, send_apdu, "
             "transceive) x every frame position of its fault free run x {Timeout, Transmission, Protocol} x burst 1..4 x "
-            "{command lost, response lost} x (Type 4A/4B, FSCI, FWI -> retry budget 0/1/3/5, WTX on UPDATE BINARY)")
+            "{command lost, response lost} x (Type 4A/4B, FSCI, FWI -> retry budget 0/1/3/5, WTX on UPDATE BINARY); at "
+            "every cell an operation that returns normally returns the fault free result or its documented failure value "
+            "(None / False / has_changed True / shorter dump) and, with the fault free result, leaves the fault free memory")
 REQUIRED_C01 = ["t4t_roundtrips", "t4t_ref_reads", "t4t_oversize_rejected", "t4t_len_capacity", "t4t_len_zero"]
 REQUIRED_C02 = ["t4t_cuts", "t4t_cut_outcome_old", "t4t_cut_outcome_new", "t4t_cut_outcome_empty"]
 REQUIRED_C03 = ["t4t_c03_ops", "t4t_c03_updates_inspected", "t4t_c03_bytes_diffed", "t4t_c03_format_wipe"]
 REQUIRED_C08 = ["t4t_c08_cases", "t4t_c08_outcome_ndef", "t4t_c08_outcome_none", "t4t_c08_ats_variants",
                 "t4t_c08_sensb_variants", "t4t_c08_stop_positions"]
-REQUIRED_C16 = ["t4t_c16_cells", "t4t_c16_within_budget_same", "t4t_c16_beyond_budget_reported", "t4t_c16_dup_checked"]
+REQUIRED_C16 = ["t4t_c16_cells", "t4t_c16_within_budget_same", "t4t_c16_beyond_budget_reported", "t4t_c16_dup_checked",
+                "t4t_c16_normal_returns_judged"]
 
 
 # ---- helpers ----------------------------------------------------------------------------------------------------
@@ -977,7 +980,10 @@ def c16_eval(R, case, refrun=None, count=True):
     ctx = "wtx" if card.blocks["tx_SWTX"] > swtx0 else "plain"
     apdus = [a for a, r in card.apdu_log[a0:]]
 
+    flagged = []
+
     def bad(sig, what):
+        flagged.append(sig)
         R.violation("t4t/c16/" + sig, what, case)
 
     if count:
@@ -1037,6 +1043,30 @@ def c16_eval(R, case, refrun=None, count=True):
             break
     if count:
         R.count("t4t_c16_dup_checked")
+    # always-on clause (every position, every burst): an operation that returns normally returns the fault free result or
+    # its documented failure value; with the fault free result the card memory is the fault free memory
+    if not flagged and out[0] == "ret":
+        res, want = out[1], refrun["res"]
+        fails = {"ndef": res is None, "changed": res is True, "present": res is False, "format": res is False,
+                 "dump": isinstance(res, list) and isinstance(want, list) and len(res) < len(want) and res == want[:len(res)]
+                 }.get(op, False)
+        if count:
+            R.count("t4t_c16_normal_returns_judged")
+        if res != want:
+            if fails:
+                if count:
+                    R.count("t4t_c16_normal_return_reports_failure")
+            else:
+                bad("silent-wrong-result/%s/%s" % (op, ctx), "%s x%d (%s lost) at frame %d: returned %r without any error, "
+                    "fault free result %r" % (kind, burst, flavour, pos, str(res)[:70], str(want)[:70]))
+        elif fails:
+            if count:
+                R.count("t4t_c16_normal_return_reference_is_failure_value")     # cannot tell failure from success
+        elif card.snapshot() != refrun["mem"]:
+            bad("silent-wrong-memory/%s/%s" % (op, ctx), "%s x%d (%s lost) at frame %d: returned the fault free result %r "
+                "but the final card memory differs" % (kind, burst, flavour, pos, str(res)[:60]))
+        elif count:
+            R.count("t4t_c16_normal_return_same_result_same_memory")
     return True
 
 
